@@ -2,26 +2,36 @@
 
 Bounded-exhaustive exploration on the real `opticomlib.devices.DAC` / `SAMPLER`:
 
-* part `rect`     : EVERY bit word of length 1..8 (quick: 1..6) x every container form x sps alphabet (even and
-                    odd) x amplitude pairs x the five spellings of the rectangular shapes; the whole waveform is
-                    compared slot by slot with a hand-built reference, then `SAMPLER` is applied at EVERY instant
-                    k in [0, sps) to the waveform carrying an index-coded noise vector and compared with
-                    explicitly indexed samples of signal AND noise; the sampled values are thresholded (sign-aware)
-                    against bias+Vout/2 and must give the word back (any k for NRZ, k < sps//2 for RZ).
-* part `gauss.iso`: sps in {8,9,16,17,32,64,128} x EVERY integer T in [ceil(sps/2), 2*sps] x m in {1,2,3,4} on the
-                    isolated one `0001000`: peak position / peak value / half-maximum width.
+* part `rect`     : EVERY bit word of length 1..8 (quick: 1..6) x every container form / sample dtype of the bits x sps
+                    alphabet (even and odd) x amplitude pairs x the spellings of the rectangular shapes; the whole
+                    waveform is compared slot by slot with a hand-built reference, then `SAMPLER` is applied at EVERY
+                    instant k in [0, sps) (Python and numpy integer k) to the waveform carrying an index-coded noise
+                    vector and compared with explicitly indexed samples of signal AND noise; the sampled values are
+                    thresholded (sign-aware) against bias+Vout/2 and must give the word back (any k for NRZ,
+                    k < sps//2 for RZ); the decided bits are fed to DAC again. A second, thin lattice runs the short
+                    words over the edge amplitudes (numpy scalars, just inside +-48, 1e-12..1e-3 scales, big offset).
+* part `long`     : structured words of length 7..4097 (primes, 2^n, 2^n+-1) in NRZ / RZ / Gaussian shape.
+* part `gauss.iso`: sps in {8,9,16,17,32,64,128} x EVERY integer T in [ceil(sps/2), 2*sps] x m in {1,2,3,4} on isolated
+                    ones (single-slot word, first / last / inner slot, two ones in one word): peak position / peak value
+                    / half-maximum width; EVERY sps in 8..128 at the limits of T and m; defaults of T, m, c.
 * part `gauss.inv`: every word x T in [ceil(sps/2), sps] x m: sampling at k = sps//2 returns the word.
-* part `sampler`  : SAMPLER on generic (real / complex, with / without noise, length not a multiple of sps) records.
+* part `sampler`  : SAMPLER on generic records (every sample dtype, with / without / zero / mixed-dtype noise, scales
+                    1e-12..1e6, lengths around sps, 1024, 4096, primes; write-protected; result fed to SAMPLER again).
+* part `grid`     : EVERY sps in 2..128 reached through every call form of `gv` ((sps), (sps,R), (sps,fs), (R,fs) with
+                    integer and non-integer ratio, fs alone, positional, float / numpy sps, N, wavelength).
+* part `reconf`   : the same calls after the grid was reconfigured (a -> b -> a).
 * part `valid`    : documented TypeError / ValueError, and acceptance of in-range boundary values.
 """
 from __future__ import annotations
 import hashlib
 import itertools
 import math
+import os
+import warnings
 import numpy as np
 
 from mcx.core.kernel import res
-from mcx.core.env import gv_reset
+from mcx.core.env import gv_reset, freeze, unchanged
 
 ID = 'C05'
 LEVEL = 'exploration'
@@ -29,15 +39,28 @@ NONTRIVIAL = ('the word contains both symbols (at least one slot transition), or
               'validation: the rejected argument is the only wrong one')
 
 EPS = float(np.finfo(float).eps)
+IN48 = float(np.nextafter(48.0, 0.0))        # largest float inside (-48, 48)
+OUT48 = float(np.nextafter(48.0, 100.0))     # smallest float outside [-48, 48]
 
 SPS_RECT = [2, 3, 4, 5, 8, 16, 17, 128]
 SPS_RECT_THOROUGH_EXTRA = [7, 9, 31, 32, 64, 127]
 SPS_GAUSS = [8, 9, 16, 17, 32, 64, 128]
 AMPS = [(1, 0), (5, 1), (-3, -2), (47.9, -47.9), (0.5, 0), (None, None)]
 AMPS_QUICK = [(1, 0), (-3, -2), (None, None)]
+# edge amplitudes (value specs, see mk()): non-integer, numpy float64 scalars, just inside the limits (the bias cancels
+# Vout exactly), tiny scales, a large offset with a small variation, None for exactly one of the two
+AMPS_EDGE = [(0.5, 0.25), (('@np', 'float64', 2.5), ('@np', 'float64', -1.5)), (IN48, -IN48), (-IN48, IN48),
+             (1e-9, 0), (-1e-12, 0.0), (1e-6, -1e-6), (1e-3, 47.5), (-1e-3, -47.5), (None, 2.0), (3.0, None), (-0.5, 0)]
 NRZ_NAMES = ['nrz', 'rect', 'NRZ']
 RZ_NAMES = ['rz', 'RZ']
+NPSTR_NAMES = [('@npstr', 'nrz'), ('@npstr', 'rz')]      # str subclasses that compare equal to a documented name
+# container forms / sample dtypes of the bit argument; the every-instant SAMPLER sweep runs on the first 7
 FORMS = ['str', 'str_spaced', 'list', 'tuple', 'ndarray_int', 'ndarray_bool', 'binary_sequence']
+FORMS_EXT = ['str_commas', 'str_comma_space', 'list_bool', 'list_float', 'list_npint', 'ndarray_uint8', 'ndarray_int8',
+             'ndarray_int16', 'ndarray_int32', 'ndarray_float64', 'ndarray_float32', 'ndarray_float16', 'binary_sequence_twice']
+N_SWEEP_FORMS = len(FORMS)
+# the instant k is passed as a Python int and as numpy integers (an instant read from np.argmax / an eye is a numpy integer)
+KTYPES = ['int', 'int64', 'int32', 'uint8', 'int16', 'intp', 'uint64']
 
 
 # ------------------------------------------------------------------ helpers
@@ -45,29 +68,85 @@ def words(L):
     return [''.join(w) for w in itertools.product('01', repeat=L)]
 
 
+def mk(v):
+    """value specs (plain picklable data) -> the real argument; ('@np','int64',5) -> np.int64(5) etc."""
+    if isinstance(v, tuple) and v and isinstance(v[0], str) and v[0].startswith('@'):
+        tag = v[0]
+        if tag == '@np':
+            return getattr(np, v[1])(v[2])
+        if tag == '@arr':                      # 0-d array for a scalar, 1-d array for a list
+            return np.array(v[1])
+        if tag == '@npstr':
+            return np.str_(v[1])
+        if tag == '@bytes':
+            return v[1].encode()
+        if tag == '@set':
+            return set(v[1])
+        if tag == '@frac':
+            from fractions import Fraction
+            return Fraction(v[1], v[2])
+        if tag == '@chain-max':                # a numpy scalar returned by the library itself: max of a DAC waveform
+            from opticomlib.devices import DAC
+            return DAC('01', Vout=v[1], bias=0.0).signal.max()
+        raise KeyError(tag)
+    return v
+
+
 def make_form(word, form):
+    """the bit argument in one container form / sample dtype; every numpy buffer is handed over WRITE-PROTECTED"""
     from opticomlib.typing import binary_sequence
     bits = [int(c) for c in word]
     if form == 'str':
         return word
     if form == 'str_spaced':
         return ' '.join(word)
+    if form == 'str_commas':
+        return ','.join(word)
+    if form == 'str_comma_space':
+        return ', '.join(word)
     if form == 'list':
         return list(bits)
+    if form == 'list_bool':
+        return [bool(b) for b in bits]
+    if form == 'list_float':
+        return [float(b) for b in bits]
+    if form == 'list_npint':
+        return [np.int64(b) for b in bits]
     if form == 'tuple':
         return tuple(bits)
-    if form == 'ndarray_int':
-        return np.array(bits, dtype=np.int64)
-    if form == 'ndarray_bool':
-        return np.array(bits, dtype=bool)
-    if form == 'binary_sequence':
-        return binary_sequence(word)
+    if form.startswith('ndarray_'):
+        dt = {'int': np.int64, 'bool': bool}.get(form[8:]) or getattr(np, form[8:])
+        a = np.array(bits, dtype=dt)
+        a.flags.writeable = False
+        return a
+    if form in ('binary_sequence', 'binary_sequence_twice'):
+        b = binary_sequence(word)
+        b.data.flags.writeable = False
+        return b
     raise KeyError(form)
+
+
+def form_intact(arg, word):
+    """the bit argument still holds the word after the call"""
+    bits = [int(c) for c in word]
+    if isinstance(arg, str):
+        return True
+    data = getattr(arg, 'data', arg) if not isinstance(arg, (list, tuple, np.ndarray)) else arg
+    try:
+        return [int(x) for x in data] == bits
+    except Exception:
+        return False
 
 
 def eff(Vout, bias):
     """None means 'do not scale' / 'do not shift' (devices.py:311, 320)"""
     return (1.0 if Vout is None else float(Vout)), (0.0 if bias is None else float(bias))
+
+
+def kval(k, i):
+    """instant k as the i-th integer type of KTYPES"""
+    t = KTYPES[i % len(KTYPES)]
+    return int(k) if t == 'int' else getattr(np, t)(k)
 
 
 def par(sps):
@@ -98,87 +177,111 @@ def coded_noise(n, seed):
 
 
 # ------------------------------------------------------------------ part rect
+def sampler_sweep(z, nz, sig, sps, L, ks, ktype_i, viol, st, tag, inverse=None):
+    """SAMPLER(z, k) for every k of ks against the explicitly indexed samples of `sig` (and of the noise vector `nz`);
+    inverse = (bits, V, b, n_inside, key) adds the threshold decision for k < n_inside"""
+    from opticomlib.devices import SAMPLER
+    idx0 = sps * np.arange(L)
+    for k in ks:
+        kk = kval(k, ktype_i)
+        y = SAMPLER(z, kk)
+        st['sampler_calls'] = st.get('sampler_calls', 0) + 1
+        ys = np.asarray(y.signal)
+        want = sig[idx0 + k]
+        if ys.shape != want.shape:
+            viol.append(('sampler:len', f'{tag} k={kk!r} slots={L}: {ys.shape[0] if ys.ndim else ys.shape} samples, expected {L}'))
+            continue
+        if not _same(ys, want):
+            viol.append(('sampler:signal', f'{tag} k={kk!r}: signal {ys.tolist()[:8]} != samples k,k+sps,.. {want.tolist()[:8]}'))
+        yn = y.noise
+        if nz is not None:
+            wn = nz[idx0 + k]
+            if yn is None or not _same(np.asarray(yn), wn):
+                viol.append(('sampler:noise', f'{tag} k={kk!r}: noise {None if yn is None else np.asarray(yn).tolist()[:6]} '
+                                              f'!= noise samples k,k+sps,.. {wn.tolist()[:6]}'))
+        elif yn is not None and np.any(np.asarray(yn) != 0):
+            viol.append(('sampler:noise', f'{tag} k={kk!r}: noise appeared from a noise-free input: {np.asarray(yn).tolist()[:6]}'))
+        if inverse is not None and k < inverse[3]:
+            bits, V, b, _, key = inverse
+            st['inversions'] = st.get('inversions', 0) + 1
+            got = threshold_bits(ys, V, b)
+            if got.shape != bits.shape or got.tobytes() != bits.astype(bool).tobytes():
+                viol.append((key, f'{tag} k={kk!r}: threshold decision {got.astype(int).tolist()[:16]} != bits'))
+
+
 def rect_case(case):
-    """case = (shape_name, sps, Vout, bias, word, seed, sweep); sweep='all': SAMPLER sweep over every instant for every
-    container form, 'first': for the first container form only (the waveforms of the other forms are still checked)"""
-    from opticomlib.devices import DAC, SAMPLER
+    """case = (shape, sps, Vout, bias, word, seed, sweep); Vout / bias / shape are value specs (mk); sweep='all': SAMPLER
+    sweep over every instant for the 7 basic container forms, 'first': for the first form only (the waveforms of all
+    the forms, the extended ones included, are still checked)"""
+    from opticomlib.devices import DAC
     from opticomlib.typing import electrical_signal
-    shape, sps, Vout, bias, word, seed, sweep = case
+    shape_s, sps, Vout_s, bias_s, word, seed, sweep = case
     gv_reset(sps=sps, R=1e9)
-    rz = shape in RZ_NAMES
+    shape, Vout, bias = mk(shape_s), mk(Vout_s), mk(bias_s)
+    rz = str(shape) in RZ_NAMES
     cls = 'rz' if rz else 'nrz'
     V, b = eff(Vout, bias)
     bits = np.array([int(c) for c in word])
     L = len(bits)
     ref = reference_rect(bits, sps, V, b, rz)
     tol = 4 * EPS * (abs(V) + abs(b))          # two correctly rounded float operations on |Vout|,|bias|-sized numbers
-    idx0 = sps * np.arange(L)
     viol = []
     st = {'dac_calls': 0, 'sampler_calls': 0, 'bit_exact_waveforms': 0, 'inversions': 0}
     h = hashlib.sha256()
-    for fi, form in enumerate(FORMS):
+    n_inside = sps // 2 if rz else sps
+    # the extended container forms / bit dtypes run with the two canonical names (the aliases share the code path behind the name test)
+    calls = [(fi, form, False) for fi, form in enumerate(FORMS + (FORMS_EXT if shape_s in ('nrz', 'rz') else []))]
+    if (Vout_s, bias_s, shape_s) == (1, 0, 'nrz'):
+        calls.append((len(calls), 'str', True))                 # DAC(bits) with every default
+    for fi, form, defaults in calls:
         arg = make_form(word, form)
-        x = DAC(arg, bias=bias, Vout=Vout, pulse_shape=shape)
+        tag = f'{shape!r} sps={sps} Vout={Vout!r} bias={bias!r} word={word!r} form={form}' + (' (all defaults)' if defaults else '')
+        x = DAC(arg) if defaults else DAC(arg, bias=bias, Vout=Vout, pulse_shape=shape)
+        if form == 'binary_sequence_twice':                      # the same object a second time
+            x = DAC(arg, bias=bias, Vout=Vout, pulse_shape=shape)
+            st['dac_calls'] += 1
         st['dac_calls'] += 1
         sig = np.asarray(x.signal)
         if fi == 0:
             h.update(repr((sig.shape, sig.dtype.str)).encode())
             h.update(sig.tobytes())
+        if not form_intact(arg, word):
+            viol.append(('dac:input-changed', f'{tag}: the bit argument was modified by the call'))
         if sig.ndim != 1 or sig.shape[0] != L * sps:
-            viol.append((f'len:{cls}:{par(sps)}', f'{shape} sps={sps} word={word!r} form={form}: {sig.shape[0] if sig.ndim else sig.shape} '
-                                                   f'samples, expected len*sps={L * sps}'))
+            viol.append((f'len:{cls}:{par(sps)}', f'{tag}: {sig.shape[0] if sig.ndim else sig.shape} samples, expected len*sps={L * sps}'))
             continue
         if x.len() != L * sps:
-            viol.append((f'len:{cls}:{par(sps)}', f'{shape} sps={sps} word={word!r}: .len()={x.len()} != {L * sps}'))
+            viol.append((f'len:{cls}:{par(sps)}', f'{tag}: .len()={x.len()} != {L * sps}'))
         err = np.abs(sig - ref)
         if not np.all(err <= tol):
-            i = int(np.argmax(err > tol))
+            i = int(np.argmax(~(err <= tol)))
             k, j = divmod(i, sps)
             if not rz:
                 key = f'slot:nrz:{par(sps)}'
             else:
                 key = f'slot:rz:{"pulse-part" if j < sps // 2 else "rest-part"}:{par(sps)}'
-            viol.append((key, f'{shape} sps={sps} Vout={Vout} bias={bias} word={word!r} form={form}: slot {k} sample {j} '
-                              f'is {sig[i]!r}, expected {ref[i]!r}'))
+            viol.append((key, f'{tag}: slot {k} sample {j} is {sig[i]!r}, expected {ref[i]!r}'))
             continue
         if np.array_equal(sig, ref):
             st['bit_exact_waveforms'] += 1
         # ---- SAMPLER at every instant, on the waveform with a noise vector attached
-        if sweep == 'first' and fi > 0:
+        if fi >= N_SWEEP_FORMS or (sweep == 'first' and fi > 0):
             continue
         noise = coded_noise(L * sps, seed + fi)
-        carriers = [(electrical_signal(sig, noise), noise)]
+        z = electrical_signal(sig, noise)
+        snap = freeze(z)
+        inv = (bits, V, b, n_inside, f'inverse:{cls}:{par(sps)}')
+        sampler_sweep(z, noise, sig, sps, L, range(sps), fi, viol, st, tag, inv)
+        if not unchanged(z, snap):
+            viol.append(('sampler:input-changed', f'{tag}: the sampled object was modified'))
         if fi == 0:
-            carriers.append((x, None))            # the DAC output itself (no noise)
-        bits_b = bits.astype(bool)
-        bits_bytes = bits_b.tobytes()
-        n_inside = sps // 2 if rz else sps
-        for z, nz in carriers:
-            for k in range(sps):
-                y = SAMPLER(z, k)
-                st['sampler_calls'] += 1
-                ys = np.asarray(y.signal)
-                want = sig[idx0 + k]
-                if ys.shape != want.shape:
-                    viol.append((f'sampler:len', f'sps={sps} k={k} len(word)={L}: {ys.shape[0] if ys.ndim else ys.shape} samples, expected {L}'))
-                    continue
-                if not _same(ys, want):
-                    viol.append(('sampler:signal', f'sps={sps} k={k} word={word!r} {shape}: signal {ys.tolist()[:8]} != samples k,k+sps,.. '
-                                                   f'{want.tolist()[:8]}'))
-                yn = y.noise
-                if nz is not None:
-                    wn = nz[idx0 + k]
-                    if yn is None or not _same(np.asarray(yn), wn):
-                        viol.append(('sampler:noise', f'sps={sps} k={k} word={word!r}: noise {None if yn is None else np.asarray(yn).tolist()[:6]} '
-                                                      f'!= noise samples k,k+sps,.. {wn.tolist()[:6]}'))
-                elif yn is not None and np.any(np.asarray(yn) != 0):
-                    viol.append(('sampler:noise', f'sps={sps} k={k}: noise appeared from a noise-free input: {np.asarray(yn).tolist()[:6]}'))
-                if k < n_inside:
-                    st['inversions'] += 1
-                    got = threshold_bits(ys, V, b)
-                    if got.tobytes() != bits_bytes:
-                        viol.append((f'inverse:{cls}:{par(sps)}', f'{shape} sps={sps} Vout={Vout} bias={bias} word={word!r} k={k}: '
-                                                                  f'threshold decision {got.astype(int).tolist()} != bits'))
+            sampler_sweep(x, None, sig, sps, L, range(sps), fi + 1, viol, st, tag + ' (DAC output, no noise)', inv)
+            # chain: the decided bits (a numpy bool array) are fed to DAC again
+            from opticomlib.devices import SAMPLER
+            again = DAC(threshold_bits(np.asarray(SAMPLER(x, 0).signal), V, b), bias=bias, Vout=Vout, pulse_shape=shape)
+            st['dac_calls'] += 1
+            if not _same(np.asarray(again.signal), sig):
+                viol.append(('chain:dac-sampler-dac', f'{tag}: DAC(decision(SAMPLER(DAC(bits),0))) differs from DAC(bits)'))
     mixed = ('0' in word) and ('1' in word)
     return res(viol=_dedup(viol), obs=h.hexdigest(), nontrivial=mixed, stats=st)
 
@@ -226,42 +329,81 @@ def half_crossings(y, half):
 
 
 ISO = '0001000'
+# isolated ones: (word, slots of the ones).  A single-slot word, a one in the first / last slot (the pulse is cut by the
+# record edge: position and peak are still claimed, the width only where both half-maximum points lie inside the record),
+# inner slots of short and longer words, two isolated ones in one word (>= 6 empty slots apart)
+ISO_WORDS = [ISO, '010', '00100', '1', '10', '01', '0100', '0010', '0000000100000', '00010000001000',
+             '0' + '1' + '0' * 14, '0' * 14 + '1' + '0', '0' * 48 + '1' + '0' * 48, '0' * 63 + '1' + '0' * 63]
+
+
+def measure_iso(y, slot, sps, T, n_slots):
+    """normalised waveform y, an isolated one in `slot`: (position error, peak error, width error | None | 'missing')
+    measured in the window of 3 slots on each side of the one"""
+    lo, hi = max(0, slot - 3) * sps, min(n_slots, slot + 4) * sps
+    w = y[lo:hi]
+    pos, mx, _ = plateau_mid(w, 1e-9)
+    pos += lo
+    centre = slot * sps + (sps - 1) / 2.0        # centre of the slot = mean index of its samples slot*sps .. (slot+1)*sps-1
+    hc = half_crossings(w, mx / 2) if len(w) >= 2 else None
+    if hc is None:
+        # both half-maximum points are expected inside the record (one sample of margin): the width must be measurable
+        inside = (centre - T / 2.0 - 1 >= 0) and (centre + T / 2.0 + 1 <= n_slots * sps - 1)
+        width = 'missing' if inside else None
+    else:
+        width = hc[1] - hc[0]
+    return pos, centre, mx, width
 
 
 def gauss_iso_case(case):
-    """case = (sps, T, m, Vout, bias)"""
+    """case = (sps, T, m, Vout, bias, word, opts): T / m None = argument omitted (documented defaults sps / 1);
+    opts = tuple of (name, value spec): extra keyword arguments (c, BW, pulse_shape spelling) or ('form', container form)"""
     from opticomlib.devices import DAC
-    sps, T, m, Vout, bias = case
+    sps, T, m, Vout_s, bias_s, word, opts = case
     gv_reset(sps=sps, R=1e9)
+    Vout, bias = mk(Vout_s), mk(bias_s)
     V, b = eff(Vout, bias)
-    x = DAC(ISO, bias=bias, Vout=Vout, pulse_shape='gaussian', T=T, m=m)
+    kw = {'pulse_shape': 'gaussian'}
+    if T is not None:
+        kw['T'] = T
+    if m is not None:
+        kw['m'] = m
+    form = 'str'
+    for name, val in opts:
+        if name == 'form':
+            form = val
+        else:
+            kw[name] = mk(val)
+    x = DAC(make_form(word, form), bias=bias, Vout=Vout, **kw)
     sig = np.asarray(x.signal)
     viol = []
-    L = len(ISO)
-    tag = f'sps={sps} T={T} m={m} Vout={Vout} bias={bias}'
+    L = len(word)
+    Te = sps if T is None else T
+    wl = word if L < 20 else f'<{L} slots, ones at {[i for i, c in enumerate(word) if c == "1"][:4]}>'
+    tag = f'sps={sps} T={T} m={m} Vout={Vout!r} bias={bias!r} word={wl!r} {dict(opts) if opts else ""}'
     if sig.ndim != 1 or sig.shape[0] != L * sps:
         viol.append((f'len:gauss:{par(sps)}', f'{tag}: {sig.shape} samples, expected {L * sps}'))
         return res(viol=viol, obs=('LEN', sig.shape), nontrivial=True)
     y = (np.real(sig) - b) / V                   # normalised pulse: 0 = bias level, 1 = bias+Vout
-    pos, mx, plat = plateau_mid(y, 1e-9)
-    slot = 3
-    centre = slot * sps + (sps - 1) / 2.0        # centre of the slot = mean index of its samples 3*sps .. 4*sps-1
-    if abs(pos - centre) > 1.0:
-        viol.append((f'gauss:peak-position:{par(sps)}', f'{tag}: peak at sample {pos} ({pos - slot * sps} in the slot), slot centre '
-                                                        f'{centre} ({(sps - 1) / 2.0} in the slot): off by {pos - centre:+.2f} samples'))
-    if abs(mx - 1.0) > 0.05:
-        viol.append(('gauss:peak-value', f'{tag}: peak-bias = {mx:.4f}*Vout, more than 5 % from Vout'))
-    hc = half_crossings(y, mx / 2)
-    width = None
-    if hc is None:
-        viol.append(('gauss:fwhm', f'{tag}: no half-maximum crossing on both sides of the peak'))
-    else:
-        width = hc[1] - hc[0]
-        if abs(width - T) > 1.0:
-            viol.append(('gauss:fwhm', f'{tag}: half-maximum width {width:.3f} samples, T={T}: off by {width - T:+.3f}'))
-    obs = (sps, T, m, Vout, bias, round(pos, 3), round(mx, 9), None if width is None else round(width, 6))
-    return res(viol=viol, obs=obs, nontrivial=(sps, T, m, Vout, bias),
-               stats={'dac_calls': 1}, payload=(abs(pos - centre), abs(mx - 1.0), None if width is None else abs(width - T)))
+    obs, pay = [], [0.0, 0.0, None]
+    for slot in [i for i, c in enumerate(word) if c == '1']:
+        pos, centre, mx, width = measure_iso(y, slot, sps, Te, L)
+        where = f'one in slot {slot} of {L}'
+        if not abs(pos - centre) <= 1.0:
+            viol.append((f'gauss:peak-position:{par(sps)}', f'{tag} {where}: peak at sample {pos} ({pos - slot * sps} in the slot), slot centre '
+                                                            f'{centre} ({(sps - 1) / 2.0} in the slot): off by {pos - centre:+.2f} samples'))
+        if not abs(mx - 1.0) <= 0.05:
+            viol.append(('gauss:peak-value', f'{tag} {where}: peak-bias = {mx:.4f}*Vout, more than 5 % from Vout'))
+        if width == 'missing':
+            viol.append(('gauss:fwhm', f'{tag} {where}: no half-maximum crossing on both sides of the peak'))
+        elif width is not None and not abs(width - Te) <= 1.0:
+            viol.append(('gauss:fwhm', f'{tag} {where}: half-maximum width {width:.3f} samples, T={Te}: off by {width - Te:+.3f}'))
+        obs.append((slot, round(pos, 3), round(mx, 9), width if not isinstance(width, float) else round(width, 6)))
+        pay[0], pay[1] = max(pay[0], abs(pos - centre)), max(pay[1], abs(mx - 1.0))
+        if isinstance(width, float):
+            pay[2] = max(pay[2] or 0.0, abs(width - Te))
+    return res(viol=_dedup(viol), obs=(sps, T, m, repr(Vout), repr(bias), word, repr(opts), tuple(obs)),
+               nontrivial=(sps, T, m, repr(Vout), repr(bias), word, repr(opts)), stats={'dac_calls': 1, 'isolated_ones': len(obs)},
+               payload=tuple(pay))
 
 
 def gauss_inv_case(case):
@@ -269,6 +411,7 @@ def gauss_inv_case(case):
     from opticomlib.devices import DAC, SAMPLER
     sps, T, m, Vout, bias, L = case
     gv_reset(sps=sps, R=1e9)
+    Vout, bias = mk(Vout), mk(bias)
     V, b = eff(Vout, bias)
     viol = []
     h = hashlib.sha256()
@@ -276,7 +419,7 @@ def gauss_inv_case(case):
     k = sps // 2
     margin = math.inf
     for wi, word in enumerate(words(L)):
-        form = FORMS[wi % len(FORMS)]
+        form = (FORMS + FORMS_EXT)[wi % len(FORMS + FORMS_EXT)]
         bits = np.array([int(c) for c in word])
         x = DAC(make_form(word, form), bias=bias, Vout=Vout, pulse_shape='gaussian', T=T, m=m)
         st['dac_calls'] += 1
@@ -303,116 +446,538 @@ def gauss_inv_case(case):
     return res(viol=_dedup(viol), obs=(case, h.hexdigest()), nontrivial=(L >= 2), stats=st, payload=margin)
 
 
+# ------------------------------------------------------------------ part long (structured long words)
+LONG_PATTERNS = ['zeros', 'ones', 'alt01', 'alt10', 'first', 'last', 'mid', 'sparse8', 'lfsr7', 'seeded']
+LONG_FORMS = ['str', 'list', 'ndarray_uint8', 'ndarray_bool', 'binary_sequence', 'ndarray_int', 'tuple', 'str_spaced', 'ndarray_float64']
+
+
+def long_word(L, pattern, seed):
+    """bits (int array) of a structured word; 'sparse8': an isolated one every 8 slots (from slot 3)"""
+    i = np.arange(L)
+    if pattern == 'zeros':
+        return np.zeros(L, dtype=int)
+    if pattern == 'ones':
+        return np.ones(L, dtype=int)
+    if pattern == 'alt01':
+        return i % 2
+    if pattern == 'alt10':
+        return 1 - i % 2
+    if pattern in ('first', 'last', 'mid'):
+        w = np.zeros(L, dtype=int)
+        w[{'first': 0, 'last': L - 1, 'mid': L // 2}[pattern]] = 1
+        return w
+    if pattern == 'sparse8':
+        return (i % 8 == 3).astype(int)
+    if pattern == 'lfsr7':                       # x^7+x^6+1, period 127 (own shift register, not the library's PRBS)
+        reg, out = 0x5A & 0x7F or 1, []
+        for _ in range(L):
+            bit = ((reg >> 6) ^ (reg >> 5)) & 1
+            out.append(reg & 1)
+            reg = ((reg << 1) | bit) & 0x7F
+        return np.array(out, dtype=int)
+    if pattern == 'seeded':
+        return np.random.RandomState((seed * 7919 + L) % (2 ** 31)).randint(0, 2, L)
+    raise KeyError(pattern)
+
+
+def reference_rect_vec(bits, sps, V, b, rz):
+    """the same reference as reference_rect, built from index arithmetic (for long words)"""
+    n = len(bits) * sps
+    slot, j = np.divmod(np.arange(n), sps)
+    on = (j < sps // 2) if rz else np.ones(n, dtype=bool)
+    return np.where(on, b + V * bits[slot], float(b))
+
+
+def instants(sps):
+    """first / second / last-but-one / last instant and both sides of the middle"""
+    return sorted({k for k in (0, 1, sps // 2 - 1, sps // 2, sps - 2, sps - 1) if 0 <= k < sps})
+
+
+def long_case(case):
+    """case = (shape, sps, L, pattern, Vout, bias, T, m, seed, form_i)"""
+    from opticomlib.devices import DAC
+    from opticomlib.typing import electrical_signal
+    shape, sps, L, pattern, Vout, bias, T, m, seed, form_i = case
+    gv_reset(sps=sps, R=1e9)
+    V, b = eff(Vout, bias)
+    bits = long_word(L, pattern, seed)
+    word = ''.join('1' if x else '0' for x in bits)
+    form = LONG_FORMS[form_i % len(LONG_FORMS)]
+    tag = f'{shape} sps={sps} Vout={Vout} bias={bias} {L} slots pattern={pattern} form={form}' + (f' T={T} m={m}' if shape == 'gaussian' else '')
+    viol, st = [], {'dac_calls': 1}
+    arg = make_form(word, form)
+    kw = {'T': T, 'm': m} if shape == 'gaussian' else {}
+    x = DAC(arg, bias=bias, Vout=Vout, pulse_shape=shape, **kw)
+    sig = np.asarray(x.signal)
+    cls = {'nrz': 'nrz', 'rz': 'rz', 'gaussian': 'gauss'}[shape]
+    if not form_intact(arg, word):
+        viol.append(('dac:input-changed', f'{tag}: the bit argument was modified by the call'))
+    if sig.ndim != 1 or sig.shape[0] != L * sps or x.len() != L * sps:
+        viol.append((f'len:{cls}:{par(sps)}', f'{tag}: {sig.shape} samples, expected len*sps={L * sps}'))
+        return res(viol=viol, obs=('LEN', case[:4], sig.shape), nontrivial=True, stats=st)
+    h = hashlib.sha256(sig.tobytes())
+    noise = coded_noise(L * sps, seed + form_i)
+    if shape in ('nrz', 'rz'):
+        rz = shape == 'rz'
+        ref = reference_rect_vec(bits, sps, V, b, rz)
+        bad = ~(np.abs(sig - ref) <= 4 * EPS * (abs(V) + abs(b)))
+        if bad.any():
+            i = int(np.argmax(bad))
+            k, j = divmod(i, sps)
+            key = f'slot:nrz:{par(sps)}' if not rz else f'slot:rz:{"pulse-part" if j < sps // 2 else "rest-part"}:{par(sps)}'
+            viol.append((key, f'{tag}: slot {k} sample {j} is {sig[i]!r}, expected {ref[i]!r} ({int(bad.sum())} samples differ)'))
+        inv = (bits, V, b, sps // 2 if rz else sps, f'inverse:{cls}:{par(sps)}')
+        ks = instants(sps)
+    else:
+        real = np.real(sig)
+        y = (real - b) / V
+        # every isolated one of the word: the Gaussian clauses of the statement
+        if pattern in ('first', 'last', 'mid', 'sparse8'):
+            for slot in np.nonzero(bits)[0].tolist():
+                pos, centre, mx, width = measure_iso(y, slot, sps, T, L)
+                where = f'one in slot {slot}'
+                if not abs(pos - centre) <= 1.0:
+                    viol.append((f'gauss:peak-position:{par(sps)}', f'{tag} {where}: peak at sample {pos}, slot centre {centre}'))
+                if not abs(mx - 1.0) <= 0.05:
+                    viol.append(('gauss:peak-value', f'{tag} {where}: peak-bias = {mx:.4f}*Vout'))
+                if width == 'missing':
+                    viol.append(('gauss:fwhm', f'{tag} {where}: no half-maximum crossing on both sides of the peak'))
+                elif width is not None and not abs(width - T) <= 1.0:
+                    viol.append(('gauss:fwhm', f'{tag} {where}: half-maximum width {width:.3f} samples, T={T}'))
+            st['isolated_ones'] = int(bits.sum())
+        # the inverse is claimed at k = sps//2 (checked for T <= sps, see gauss.inv); the other instants: sampling only
+        inv = (bits, V, b, sps, f'inverse:gauss:{par(sps)}') if T <= sps else None
+        ks = [sps // 2]
+        sampler_sweep(electrical_signal(sig, noise), noise, sig, sps, L, [k for k in instants(sps) if k != sps // 2], form_i, viol, st, tag, None)
+    z = electrical_signal(sig, noise)
+    snap = freeze(z)
+    sampler_sweep(z, noise, sig, sps, L, ks, form_i, viol, st, tag, inv)
+    if not unchanged(z, snap):
+        viol.append(('sampler:input-changed', f'{tag}: the sampled object was modified'))
+    return res(viol=_dedup(viol), obs=(case[:8], h.hexdigest()), nontrivial=(shape, sps, L, pattern, T, m) if 0 < bits.sum() < L else False, stats=st)
+
+
+# ------------------------------------------------------------------ parts grid / reconf (the global grid reached in other ways)
+GRID_FORMS = ['sps', 'sps,R=10G', 'sps,R=622.08M', 'sps,fs=64G', 'sps,fs=pi', 'R,fs integer ratio', 'R,fs ratio+0.3', 'R,fs ratio-0.4',
+              'R=1G/3,fs', 'fs alone', 'fs alone +0.2', 'positional', 'sps float', 'sps numpy int', 'N=64', 'wavelength', 'fs,N,wavelength,custom']
+
+
+def grid_call(form, s):
+    """one configuration call of the global grid that makes sps == s"""
+    from opticomlib.typing import gv
+    kw, pos = None, ()
+    if form == 'sps':
+        kw = dict(sps=s)
+    elif form == 'sps,R=10G':
+        kw = dict(sps=s, R=10e9)
+    elif form == 'sps,R=622.08M':
+        kw = dict(sps=s, R=622.08e6)
+    elif form == 'sps,fs=64G':
+        kw = dict(sps=s, fs=64e9)
+    elif form == 'sps,fs=pi':
+        kw = dict(sps=s, fs=math.pi * 1e10)
+    elif form == 'R,fs integer ratio':
+        kw = dict(R=2.5e9, fs=2.5e9 * s)
+    elif form == 'R,fs ratio+0.3':
+        kw = dict(R=1e9, fs=(s + 0.3) * 1e9)
+    elif form == 'R,fs ratio-0.4':
+        kw = dict(R=1e9, fs=(s - 0.4) * 1e9)
+    elif form == 'R=1G/3,fs':
+        kw = dict(R=1e9 / 3, fs=s * (1e9 / 3))
+    elif form == 'fs alone':
+        kw = dict(fs=s * float(gv.R))
+    elif form == 'fs alone +0.2':
+        kw = dict(fs=(s + 0.2) * float(gv.R))
+    elif form == 'positional':
+        kw, pos = {}, (s, 40e9)
+    elif form == 'sps float':
+        kw = dict(sps=float(s), R=1e9)
+    elif form == 'sps numpy int':
+        kw = dict(sps=np.int64(s), R=1e9)
+    elif form == 'N=64':
+        kw = dict(sps=s, R=1e9, N=64)
+    elif form == 'wavelength':
+        kw = dict(sps=s, R=1e9, wavelength=1310e-9)
+    elif form == 'fs,N,wavelength,custom':
+        kw = dict(sps=s, fs=40e9, N=128, wavelength=1310e-9, alpha=0.2)
+    else:
+        raise KeyError(form)
+    with warnings.catch_warnings():
+        warnings.simplefilter('ignore')
+        gv(*pos, **kw)
+    return int(gv.sps)
+
+
+THIN_CALLS = [('nrz', 'DEFAULTS', None), ('rz', -3, -2), ('nrz', 0.5, 0.25), ('rz', 1, 0)]
+
+
+def thin_check(sps, seed, tag0, viol, st, gauss=True):
+    """a thin slice of every clause on the CURRENT grid: words 1 / 0110 in NRZ (all defaults) and RZ, first / middle / last
+    instants with noise, the Gaussian default pulse for sps >= 8"""
+    from opticomlib.devices import DAC
+    from opticomlib.typing import electrical_signal
+    h = hashlib.sha256()
+    for wi, word in enumerate(['1', '0110']):
+        bits = np.array([int(c) for c in word])
+        L = len(bits)
+        for ci, (shape, Vout, bias) in enumerate(THIN_CALLS):
+            form = (FORMS + FORMS_EXT)[(wi * 4 + ci + sps) % len(FORMS + FORMS_EXT)]
+            arg = make_form(word, form)
+            if Vout == 'DEFAULTS':
+                x, Vout, bias = DAC(arg), 1.0, 0.0
+            else:
+                x = DAC(arg, bias=bias, Vout=Vout, pulse_shape=shape)
+            st['dac_calls'] = st.get('dac_calls', 0) + 1
+            V, b = eff(Vout, bias)
+            rz = shape == 'rz'
+            tag = f'{tag0}: {shape} Vout={Vout} bias={bias} word={word!r} form={form}'
+            sig = np.asarray(x.signal)
+            h.update(sig.tobytes())
+            if sig.ndim != 1 or sig.shape[0] != L * sps:
+                viol.append((f'len:{shape}:{par(sps)}', f'{tag}: {sig.shape} samples, expected len*sps={L * sps}'))
+                continue
+            ref = reference_rect(bits, sps, V, b, rz)
+            bad = ~(np.abs(sig - ref) <= 4 * EPS * (abs(V) + abs(b)))
+            if bad.any():
+                i = int(np.argmax(bad))
+                k, j = divmod(i, sps)
+                key = f'slot:nrz:{par(sps)}' if not rz else f'slot:rz:{"pulse-part" if j < sps // 2 else "rest-part"}:{par(sps)}'
+                viol.append((key, f'{tag}: slot {k} sample {j} is {sig[i]!r}, expected {ref[i]!r}'))
+                continue
+            noise = coded_noise(L * sps, seed + ci)
+            sampler_sweep(electrical_signal(sig, noise), noise, sig, sps, L, instants(sps), ci + wi, viol, st, tag,
+                          (bits, V, b, sps // 2 if rz else sps, f'inverse:{shape}:{par(sps)}'))
+    if gauss and sps >= 8:
+        word = '00100'
+        x = DAC(word, pulse_shape='gaussian')                    # T, m, c, Vout, bias: documented defaults sps, 1, 0, 1, 0
+        st['dac_calls'] = st.get('dac_calls', 0) + 1
+        sig = np.asarray(x.signal)
+        tag = f'{tag0}: gaussian (defaults) word={word!r}'
+        if sig.ndim != 1 or sig.shape[0] != 5 * sps:
+            viol.append((f'len:gauss:{par(sps)}', f'{tag}: {sig.shape} samples, expected {5 * sps}'))
+        else:
+            y = np.real(sig)
+            pos, centre, mx, width = measure_iso(y, 2, sps, sps, 5)
+            if not abs(pos - centre) <= 1.0:
+                viol.append((f'gauss:peak-position:{par(sps)}', f'{tag}: peak at sample {pos}, slot centre {centre}'))
+            if not abs(mx - 1.0) <= 0.05:
+                viol.append(('gauss:peak-value', f'{tag}: peak = {mx:.4f}*Vout'))
+            if width == 'missing' or (width is not None and not abs(width - sps) <= 1.0):
+                viol.append(('gauss:fwhm', f'{tag}: half-maximum width {width}, default T = sps = {sps}'))
+            sampler_sweep(x, None, sig, sps, 5, [sps // 2], sps, viol, st, tag, (np.array([0, 0, 1, 0, 0]), 1.0, 0.0, sps, f'inverse:gauss:{par(sps)}'))
+            h.update(np.round(y, 9).tobytes())
+    return h
+
+
+def grid_case(case):
+    """case = (s, form, seed): clean grid, ONE configuration call in the given form, thin slice of every clause"""
+    from opticomlib.typing import gv
+    s, form, seed = case
+    gv.clean()
+    sps = grid_call(form, s)
+    viol, st = [], {}
+    if not 2 <= sps <= 128:
+        return res(viol=[], obs=('outside', s, form, sps), nontrivial=False)      # the statement quantifies over sps in 2..128
+    h = thin_check(sps, seed, f'gv[{form}] -> sps={sps}', viol, st)
+    st['grid_sps_not_as_requested'] = int(sps != s)
+    return res(viol=_dedup(viol), obs=(s, form, sps, h.hexdigest()), nontrivial=(s, form), stats=st)
+
+
+def reconf_case(case):
+    """case = (a, form_a, b, form_b, seed): grid a, a waveform, grid b WITHOUT clean(), every clause on grid b (and the old
+    waveform sampled on the new grid, the T limit of the new grid), back to grid a, every clause again"""
+    from opticomlib.devices import DAC
+    from opticomlib.typing import gv, electrical_signal
+    a, fa, b_, fb, seed = case
+    gv.clean()
+    viol, st = [], {}
+    sa = grid_call(fa, a)
+    xa = np.asarray(DAC('0110', Vout=-3, bias=-2, pulse_shape='rz').signal).copy()
+    na = coded_noise(len(xa), seed)
+    sb = grid_call(fb, b_)
+    hs = []
+    if 2 <= sb <= 128:
+        hs.append(thin_check(sb, seed, f'gv[{fa}: sps={sa}] then gv[{fb}: sps={sb}]', viol, st).hexdigest())
+        # the OLD waveform on the NEW grid: SAMPLER takes samples k, k+sps, ... with the current sps
+        z = electrical_signal(xa, na)
+        from opticomlib.devices import SAMPLER
+        for k in instants(sb):
+            if k >= len(xa):
+                continue
+            y = SAMPLER(z, k)
+            st['sampler_calls'] = st.get('sampler_calls', 0) + 1
+            ix = np.arange(k, len(xa), sb)
+            if not _same(np.asarray(y.signal), xa[ix]) or y.noise is None or not _same(np.asarray(y.noise), na[ix]):
+                viol.append(('sampler:after-reconfiguration', f'waveform made at sps={sa}, grid now sps={sb}, k={k}: '
+                                                              f'{np.asarray(y.signal).tolist()[:6]} != samples k, k+{sb}, ...'))
+        # the T limit follows the new grid
+        for T, exp in [(2 * sb, 'ok'), (2 * sb + 1, 'ValueError')]:
+            try:
+                n = len(np.asarray(DAC('010', pulse_shape='gaussian', T=T).signal))
+                got = 'ok'
+            except (TypeError, ValueError) as e:
+                got, n = type(e).__name__, None
+            if got != exp:
+                viol.append((f'valid:T:after-reconfiguration', f'grid sps={sa} then sps={sb}: DAC(T={T}) -> {got}, expected {exp} (limit 2*sps={2 * sb})'))
+            elif got == 'ok' and n != 3 * sb:
+                viol.append((f'len:gauss:{par(sb)}', f'grid sps={sa} then sps={sb}: T={T}: {n} samples, expected {3 * sb}'))
+    sa2 = grid_call(fa, a)
+    if 2 <= sa2 <= 128:
+        hs.append(thin_check(sa2, seed, f'gv[{fa}: sps={sa}], gv[{fb}: sps={sb}], back to gv[{fa}: sps={sa2}]', viol, st).hexdigest())
+    return res(viol=_dedup(viol), obs=(case[:4], sa, sb, sa2, tuple(hs)), nontrivial=(a, fa, b_, fb) if sa != sb else False, stats=st)
+
+
 # ------------------------------------------------------------------ part sampler (generic records)
+DTYPES = ['bool', 'int8', 'uint8', 'int16', 'int32', 'int64', 'float16', 'float32', 'float64', 'complex64', 'complex128']
+SAMPLER_KINDS = (['real', 'complex', 'nonoise', 'zero-sum-noise', 'seeded', 'zero-noise', 'int-valued-float', 'real+complex-noise',
+                  'complex+real-noise', 'int16+float32-noise', 'float32+int8-noise', 'dc-offset']
+                 + [f'dtype:{d}' for d in DTYPES] + [f'dtype-nonoise:{d}' for d in ('bool', 'uint8', 'int64', 'float32', 'complex64')]
+                 + [f'scale:{e}' for e in ('1e-12', '1e-09', '1e-06', '1e+06')])
+
+
+def sampler_record(n, kind, seed):
+    """(signal, noise | None) of a generic record"""
+    rs = np.random.RandomState(seed * 1000003 % (2 ** 31) + n)
+    i = np.arange(n)
+    base = i * 1.0 + 0.5
+    if kind == 'real':
+        return base, -base / 8
+    if kind == 'complex':
+        return base + 1j * (base + 100), (base / 4) - 1j * base
+    if kind == 'nonoise':
+        return base, None
+    if kind == 'zero-sum-noise':
+        noi = np.where(i % 2, -1.0, 1.0) * (1 + i // 2)
+        if n % 2:
+            noi[-1] = 0.0
+        return base, noi
+    if kind == 'seeded':
+        return rs.standard_normal(n), rs.standard_normal(n)
+    if kind == 'zero-noise':
+        return base, np.zeros(n)
+    if kind == 'int-valued-float':
+        return np.floor(base), np.floor(base / 3)
+    if kind == 'real+complex-noise':
+        return base, (base / 4) - 1j * base
+    if kind == 'complex+real-noise':
+        return base + 1j * (base + 100), -base / 8
+    if kind == 'int16+float32-noise':
+        return (i % 1000 + 1).astype(np.int16), (base / 4).astype(np.float32)
+    if kind == 'float32+int8-noise':
+        return base.astype(np.float32), ((i * 7) % 11 - 5).astype(np.int8)
+    if kind == 'dc-offset':                       # a large offset with a small variation
+        return 1e6 + 1e-6 * rs.standard_normal(n), 1e-6 * rs.standard_normal(n)
+    if kind.startswith('dtype'):
+        dt = np.dtype(kind.split(':')[1])
+        if dt == bool:
+            sig, noi = (i % 3 == 0), (i % 5 == 1)
+        elif dt.kind == 'c':
+            sig, noi = ((i % 100) + 1 + 1j * (i % 7)).astype(dt), ((i * 7) % 11 - 1j * (i % 3)).astype(dt)
+        else:
+            sig, noi = ((i % 100) + 1).astype(dt), ((i * 7) % 11).astype(dt)
+        return sig, (None if kind.startswith('dtype-nonoise') else noi)
+    if kind.startswith('scale:'):
+        f = float(kind.split(':')[1])
+        return f * rs.standard_normal(n), f * rs.standard_normal(n)
+    raise KeyError(kind)
+
+
 def sampler_case(case):
-    """case = (sps, n, kind, seed): SAMPLER at every instant on a generic record of n samples"""
+    """case = (sps, n, kind, seed): SAMPLER at every instant on a generic, write-protected record of n samples"""
     from opticomlib.devices import SAMPLER
     from opticomlib.typing import electrical_signal
     sps, n, kind, seed = case
     gv_reset(sps=sps, R=1e9)
-    rs = np.random.RandomState(seed * 1000003 % (2 ** 31) + n)
-    base = np.arange(n) * 1.0 + 0.5
-    if kind == 'real':
-        sig, noi = base, -base / 8
-    elif kind == 'complex':
-        sig, noi = base + 1j * (base + 100), (base / 4) - 1j * base
-    elif kind == 'nonoise':
-        sig, noi = base, None
-    elif kind == 'zero-sum-noise':
-        noi = np.where(np.arange(n) % 2, -1.0, 1.0) * (1 + np.arange(n) // 2)
-        if n % 2:
-            noi[-1] = 0.0
-        sig = base
-    elif kind == 'seeded':
-        sig, noi = rs.standard_normal(n), rs.standard_normal(n)
-    else:
-        raise KeyError(kind)
+    sig, noi = sampler_record(n, kind, seed)
     z = electrical_signal(sig, noi)
+    snap = freeze(z)
     sig0 = np.array(z.signal)
     noi0 = None if z.noise is None else np.array(z.noise)
+    zero_noise = noi0 is not None and not np.any(noi0 != 0)
     viol = []
     h = hashlib.sha256()
+    calls = 0
     for k in range(sps):
         want_idx = list(range(k, n, sps))
         if not want_idx:
             continue                              # the record is shorter than the instant: nothing is claimed
-        y = SAMPLER(z, k)
+        kk = kval(k, k + n)
+        y = SAMPLER(z, kk)
+        calls += 1
         ys = np.asarray(y.signal)
         ws = np.array([sig0[i] for i in want_idx])
         if ys.shape != ws.shape:
-            viol.append(('sampler:len', f'sps={sps} n={n} k={k}: {ys.shape} samples, expected {len(want_idx)}'))
+            viol.append(('sampler:len', f'sps={sps} n={n} k={kk!r}: {ys.shape} samples, expected {len(want_idx)}'))
             continue
         if not np.array_equal(ys, ws):
-            viol.append(('sampler:signal', f'sps={sps} n={n} k={k} {kind}: {ys.tolist()[:6]} != {ws.tolist()[:6]}'))
+            viol.append(('sampler:signal', f'sps={sps} n={n} k={kk!r} {kind}: {ys.tolist()[:6]} != {ws.tolist()[:6]}'))
         if noi0 is not None:
             wn = np.array([noi0[i] for i in want_idx])
             yn = y.noise
-            if yn is None or np.asarray(yn).shape != wn.shape or not np.array_equal(np.asarray(yn), wn):
-                viol.append(('sampler:noise', f'sps={sps} n={n} k={k} {kind}: noise '
+            if yn is None and zero_noise:
+                pass                              # an all-zero noise vector and "no noise" carry the same samples
+            elif yn is None or np.asarray(yn).shape != wn.shape or not np.array_equal(np.asarray(yn), wn):
+                viol.append(('sampler:noise', f'sps={sps} n={n} k={kk!r} {kind}: noise '
                                               f'{None if yn is None else np.asarray(yn).tolist()[:6]} != {wn.tolist()[:6]}'))
         elif y.noise is not None and np.any(np.asarray(y.noise) != 0):
-            viol.append(('sampler:noise', f'sps={sps} n={n} k={k}: noise appeared from a noise-free input'))
+            viol.append(('sampler:noise', f'sps={sps} n={n} k={kk!r}: noise appeared from a noise-free input'))
         h.update(ys.tobytes())
         if y.noise is not None:
             h.update(np.asarray(y.noise).tobytes())
-    if not np.array_equal(np.asarray(z.signal), sig0):
-        viol.append(('sampler:input-changed', f'sps={sps} n={n} {kind}: the input signal was modified'))
-    return res(viol=_dedup(viol), obs=(case[:3], h.hexdigest()), nontrivial=(n > sps), stats={'sampler_calls': sps})
+        # chain: the sampled record (len(want_idx) samples) is a record itself: SAMPLER(y, j) = samples j, j+sps, ... of y
+        if k in (0, sps - 1):
+            for j in sorted({0, sps - 1}):
+                jdx = list(range(j, len(want_idx), sps))
+                if not jdx:
+                    continue
+                y2 = SAMPLER(y, j)
+                calls += 1
+                w2 = np.array([ws[i] for i in jdx])
+                if np.asarray(y2.signal).shape != w2.shape or not np.array_equal(np.asarray(y2.signal), w2):
+                    viol.append(('chain:sampler-sampler', f'sps={sps} n={n} {kind}: SAMPLER(SAMPLER(x,{k}),{j}) = '
+                                                          f'{np.asarray(y2.signal).tolist()[:6]} != {w2.tolist()[:6]}'))
+                elif noi0 is not None and not zero_noise and (y2.noise is None or not np.array_equal(np.asarray(y2.noise), np.array([wn[i] for i in jdx]))):
+                    viol.append(('chain:sampler-sampler', f'sps={sps} n={n} {kind}: noise of SAMPLER(SAMPLER(x,{k}),{j}) is wrong'))
+    if not unchanged(z, snap):
+        viol.append(('sampler:input-changed', f'sps={sps} n={n} {kind}: the input object was modified'))
+    return res(viol=_dedup(viol), obs=(case[:3], h.hexdigest()), nontrivial=(n > sps), stats={'sampler_calls': calls})
 
 
 # ------------------------------------------------------------------ part valid
-def _bad_scalars():
-    """(label, value, expected exception name | 'boundary')"""
+# expectation classes:
+#   'ValueError' / 'TypeError' : exactly this documented exception
+#   'reject'   : wrong in type AND range (np.int64(50)) or not a string at all: either documented exception, never accepted
+#   'boundary' : |value| == 48, the statement quantifies over the open interval: ValueError or a correct waveform
+#   'either'   : an in-range value of a type the statement is silent on (numpy non-float64 scalars, 0-d arrays, bool,
+#                integer-valued float T/m): TypeError, or accepted and then the waveform must be the correct one
+#   'ok'       : must be accepted and give the correct waveform
+#   ('variant', name) : a spelling that normalises (strip, lower) to a documented name: ValueError, or exactly the
+#                waveform of the documented name
+def _amp_values():
+    """(label, value spec, expectation) for Vout and bias"""
+    f64, i64 = (lambda v: ('@np', 'float64', v)), (lambda v: ('@np', 'int64', v))
     return [
         ('50', 50, 'ValueError'), ('-50', -50, 'ValueError'), ('48.000001', 48.000001, 'ValueError'),
-        ('-48.000001', -48.000001, 'ValueError'), ('1e6', 1e6, 'ValueError'), ('inf', math.inf, 'ValueError'),
-        ('-inf', -math.inf, 'ValueError'),
-        ('48', 48, 'boundary'), ('-48', -48, 'boundary'), ('48.0', 48.0, 'boundary'),
-        ("'5'", '5', 'TypeError'), ('1+1j', 1 + 1j, 'TypeError'), ('[1.0]', [1.0], 'TypeError'),
-        ('(1,)', (1,), 'TypeError'), ('array([1.,2.])', 'ARRAY', 'TypeError'), ('{}', {}, 'TypeError'),
+        ('-48.000001', -48.000001, 'ValueError'), ('nextafter(48,inf)', OUT48, 'ValueError'), ('-nextafter(48,inf)', -OUT48, 'ValueError'),
+        ('1e6', 1e6, 'ValueError'), ('inf', math.inf, 'ValueError'), ('-inf', -math.inf, 'ValueError'),
+        ('np.float64(50)', f64(50.0), 'ValueError'), ('np.float64(-1e6)', f64(-1e6), 'ValueError'), ('10**30', 10 ** 30, 'ValueError'),
+        ('48', 48, 'boundary'), ('-48', -48, 'boundary'), ('48.0', 48.0, 'boundary'), ('-48.0', -48.0, 'boundary'),
+        ('np.float64(48)', f64(48.0), 'boundary'),
+        ('np.int64(50)', i64(50), 'reject'), ('np.float32(-50)', ('@np', 'float32', -50.0), 'reject'), ('array(50.)', ('@arr', 50.0), 'reject'),
+        ('np.int64(-1000)', i64(-1000), 'reject'),
+        ("'5'", '5', 'TypeError'), ("''", '', 'TypeError'), ("'nan'", 'nan', 'TypeError'), ('1+1j', 1 + 1j, 'TypeError'), ('[1.0]', [1.0], 'TypeError'),
+        ('(1,)', (1,), 'TypeError'), ('array([1.,2.])', ('@arr', [1.0, 2.0]), 'TypeError'), ('array([5.])', ('@arr', [5.0]), 'TypeError'),
+        ('{}', {}, 'TypeError'), ('{1}', ('@set', [1]), 'TypeError'), ("b'5'", ('@bytes', '5'), 'TypeError'),
+        ('np.complex128(1)', ('@np', 'complex128', 1.0), 'TypeError'),
+        ('np.int64(5)', i64(5), 'either'), ('np.int32(-3)', ('@np', 'int32', -3), 'either'), ('np.uint8(5)', ('@np', 'uint8', 5), 'either'),
+        ('np.float32(2.5)', ('@np', 'float32', 2.5), 'either'), ('np.float16(2)', ('@np', 'float16', 2.0), 'either'),
+        ('array(2.)', ('@arr', 2.0), 'either'), ('array(2)', ('@arr', 2), 'either'), ('np.bool_(True)', ('@np', 'bool_', True), 'either'),
+        ('True', True, 'either'), ('False', False, 'either'), ('Fraction(1,2)', ('@frac', 1, 2), 'either'),
+        ('np.float64(5)', f64(5.0), 'ok'), ('np.float64(-47.999)', f64(-47.999), 'ok'), ('nextafter(48,0)', IN48, 'ok'),
+        ('-nextafter(48,0)', -IN48, 'ok'), ('np.float64(nextafter(48,0))', f64(IN48), 'ok'), ('max of a DAC waveform', ('@chain-max', 3.5), 'ok'),
+        ('47.999', 47.999, 'ok'), ('-47.999', -47.999, 'ok'), ('0', 0, 'ok'), ('0.0', 0.0, 'ok'), ('-0.0', -0.0, 'ok'), ('3', 3, 'ok'), ('-2', -2, 'ok'),
+        ('1e-300', 1e-300, 'ok'), ('5e-324', 5e-324, 'ok'), ('np.float64(0)', f64(0.0), 'ok'),
     ]
 
 
+SHAPES_UNKNOWN = ['', ' ', 'r', 'z', 'n', 'g', 'a', 'ss', 'nr', 'rec', 'gauss', 'gaus', 'sian', 'aussian', 'gaussia', 'nrzi', 'nrzz', 'rzz', 'xrz',
+                  'rectangular', 'gaussian2', 'supergaussian', 'nrz,rz', 'nrz rz', 'nrz|gaussian', 'n r z', 'triangle', 'sinc', 'raised-cosine',
+                  'none', 'None', '0', 'nrz\x00']
+SHAPES_NONSTR = [None, 0, 1, True, 1.0, ['nrz'], ('nrz',), ('@bytes', 'nrz'), ('@set', ['nrz'])]
+SHAPES_VARIANT = ['Rect', 'RECT', 'Nrz', 'nRZ', 'Rz', 'rZ', 'Gaussian', 'GAUSSIAN', 'GAUSSIAn', 'gAUSSIAN', ' nrz', 'nrz ', 'NRZ ', 'rz\n', '\tgaussian',
+                  'RZ ', ' rect ']
+SHAPES_OK = ['nrz', 'rect', 'NRZ', 'rz', 'RZ', 'gaussian', ('@npstr', 'nrz'), ('@npstr', 'rz'), ('@npstr', 'gaussian')]
+CANON = {'nrz': 'nrz', 'rect': 'nrz', 'rz': 'rz', 'gaussian': 'gaussian'}
+
+
+def _gauss_values(sps):
+    i64 = lambda v: ('@np', 'int64', v)
+    T = [('0', 0, 'ValueError'), ('-1', -1, 'ValueError'), ('2sps+1', 2 * sps + 1, 'ValueError'), ('10sps', 10 * sps, 'ValueError'),
+         ('10**30', 10 ** 30, 'ValueError'), ('-10**30', -10 ** 30, 'ValueError'),
+         ('8.5', 8.5, 'TypeError'), ("'8'", '8', 'TypeError'), ('[4]', [4], 'TypeError'), ('1j', 1j, 'TypeError'), ('None', None, 'TypeError'),
+         ('array([4,4])', ('@arr', [4, 4]), 'TypeError'), ('(sps,)', (sps,), 'TypeError'),
+         ('float(sps)', float(sps), 'either'), ('np.int64(sps)', i64(sps), 'either'), ('np.int32(sps)', ('@np', 'int32', sps), 'either'),
+         ('np.float64(sps)', ('@np', 'float64', float(sps)), 'either'), ('array(sps)', ('@arr', sps), 'either'), ('True', True, 'either'),
+         ('np.int64(2sps+1)', i64(2 * sps + 1), 'reject'), ('float(2sps+1)', float(2 * sps + 1), 'reject'), ('np.int64(0)', i64(0), 'reject'),
+         ('0.0', 0.0, 'reject'), ('False', False, 'reject'),
+         ('1', 1, 'ok'), ('2', 2, 'ok'), ('ceil(sps/2)', math.ceil(sps / 2), 'ok'), ('sps', sps, 'ok'), ('2sps-1', 2 * sps - 1, 'ok'), ('2sps', 2 * sps, 'ok')]
+    m = [('0', 0, 'ValueError'), ('-1', -1, 'ValueError'), ('-4', -4, 'ValueError'), ('-10**30', -10 ** 30, 'ValueError'),
+         ('1.5', 1.5, 'TypeError'), ("'2'", '2', 'TypeError'), ('[1]', [1], 'TypeError'), ('1j', 1j, 'TypeError'), ('None', None, 'TypeError'),
+         ('(2,)', (2,), 'TypeError'),
+         ('2.0', 2.0, 'either'), ('np.int64(2)', i64(2), 'either'), ('np.int32(4)', ('@np', 'int32', 4), 'either'), ('True', True, 'either'),
+         ('array(2)', ('@arr', 2), 'either'),
+         ('False', False, 'reject'), ('np.int64(0)', i64(0), 'reject'), ('0.0', 0.0, 'reject'), ('-1.0', -1.0, 'reject'),
+         ('1', 1, 'ok'), ('2', 2, 'ok'), ('3', 3, 'ok'), ('4', 4, 'ok')]
+    c = [('1j', 1j, 'TypeError'), ("'0'", '0', 'TypeError'), ('[0.0]', [0.0], 'TypeError'), ('1+0j', 1 + 0j, 'TypeError'), ('None', None, 'TypeError'),
+         ('np.complex128(1)', ('@np', 'complex128', 1.0), 'TypeError'), ('array([0.,1.])', ('@arr', [0.0, 1.0]), 'TypeError'), ('(0.0,)', (0.0,), 'TypeError'),
+         ('True', True, 'either'), ('False', False, 'either'), ('np.float32(.5)', ('@np', 'float32', 0.5), 'either'), ('np.int64(1)', i64(1), 'either'),
+         ('array(.5)', ('@arr', 0.5), 'either'), ('Fraction(1,2)', ('@frac', 1, 2), 'either'),
+         ('0', 0, 'ok'), ('0.0', 0.0, 'ok'), ('-0.0', -0.0, 'ok'), ('0.5', 0.5, 'ok'), ('-2', -2, 'ok'), ('1', 1, 'ok'), ('1e-3', 1e-3, 'ok'), ('100.0', 100.0, 'ok'),
+         ('np.float64(.5)', ('@np', 'float64', 0.5), 'ok'), ('np.float64(0)', ('@np', 'float64', 0.0), 'ok')]
+    return {'T': T, 'm': m, 'c': c}
+
+
 def valid_cases():
+    """case = (what, sps, word, shape spec, kw specs, label, expectation)"""
     cases = []
-    for sps in [2, 8, 17]:
+    for sps in [2, 8, 17, 3, 128]:
         for word in ['1', '010', '000']:
             for shape in ['nrz', 'rz', 'gaussian']:
-                for label, val, exp in _bad_scalars():
+                for label, val, exp in _amp_values():
                     cases.append(('Vout', sps, word, shape, {'Vout': val}, label, exp))
                     cases.append(('bias', sps, word, shape, {'bias': val}, label, exp))
-            for label, val, exp in [('0', 0, 'ValueError'), ('-1', -1, 'ValueError'), ('2sps+1', 2 * sps + 1, 'ValueError'),
-                                    ('10sps', 10 * sps, 'ValueError'), ('8.5', 8.5, 'TypeError'), ("'8'", '8', 'TypeError'),
-                                    ('[4]', [4], 'TypeError'), ('1j', 1j, 'TypeError')]:
-                cases.append(('T', sps, word, 'gaussian', {'T': val}, label, exp))
-            for label, val, exp in [('0', 0, 'ValueError'), ('-1', -1, 'ValueError'), ('-4', -4, 'ValueError'),
-                                    ('1.5', 1.5, 'TypeError'), ("'2'", '2', 'TypeError'), ('[1]', [1], 'TypeError'),
-                                    ('1j', 1j, 'TypeError')]:
-                cases.append(('m', sps, word, 'gaussian', {'m': val}, label, exp))
-            for label, val, exp in [('1j', 1j, 'TypeError'), ("'0'", '0', 'TypeError'), ('[0.0]', [0.0], 'TypeError'),
-                                    ('1+0j', 1 + 0j, 'TypeError')]:
-                cases.append(('c', sps, word, 'gaussian', {'c': val}, label, exp))
-            for name in ['triangle', 'gauss', 'sinc', 'raised-cosine', '']:
+            for what, vals in _gauss_values(sps).items():
+                for label, val, exp in vals:
+                    cases.append((what, sps, word, 'gaussian', {what: val}, label, exp))
+            for name in SHAPES_UNKNOWN:
                 cases.append(('shape', sps, word, name, {}, repr(name), 'ValueError'))
-            # in-range boundary values must be accepted
-            for kw, label in [({'Vout': 47.999}, 'Vout=47.999'), ({'Vout': -47.999}, 'Vout=-47.999'), ({'bias': 47.999}, 'bias=47.999'),
-                              ({'bias': -47.999}, 'bias=-47.999'), ({'Vout': 0}, 'Vout=0'), ({'Vout': 3}, 'Vout=int'),
-                              ({'bias': -2}, 'bias=int')]:
+            for name in SHAPES_NONSTR:
+                cases.append(('shape', sps, word, name, {}, repr(mk(name)), 'reject'))
+            for name in SHAPES_VARIANT:
+                cases.append(('shape', sps, word, name, {}, repr(name), ('variant', CANON[name.strip().lower()])))
+            for name in SHAPES_OK:
+                cases.append(('shape', sps, word, name, {}, repr(mk(name)), 'ok'))
+            # further accepted calls: two in-range deviations at once, one argument None, the BW stage (length only), BW=None
+            for kw, label in [({'Vout': 3, 'bias': -2}, 'Vout=int,bias=int'), ({'Vout': IN48, 'bias': IN48}, 'both just inside'),
+                              ({'Vout': None, 'bias': 47.999}, 'Vout=None'), ({'Vout': -47.999, 'bias': None}, 'bias=None'),
+                              ({'BW': None}, 'BW=None'), ({'BW': 0.75e9}, 'BW=0.75R'), ({'BW': 2e9, 'Vout': 5}, 'BW=2R,Vout=5'),
+                              ({'BW': ('@np', 'float64', 1e9)}, 'BW=np.float64')]:
+                if kw.get('BW') is not None and len(word) * sps < 32:
+                    continue      # the low-pass stage (LPF, zero-phase filtering) needs a record longer than its padding: not a DAC clause
                 for shape in ['nrz', 'rz', 'gaussian']:
                     cases.append(('accept', sps, word, shape, kw, label, 'ok'))
-            for kw, label in [({'T': 2 * sps}, 'T=2sps'), ({'T': 1}, 'T=1'), ({'T': sps}, 'T=sps'), ({'m': 1}, 'm=1'), ({'m': 4}, 'm=4'),
-                              ({'c': 0.5}, 'c=0.5'), ({'c': -2}, 'c=-2'), ({'c': 0}, 'c=0')]:
+            for kw, label in [({'T': 2 * sps, 'm': 4}, 'T=2sps,m=4'), ({'T': 1, 'm': 1, 'c': 0}, 'T=1,m=1,c=0'), ({'T': sps, 'c': 0.5, 'Vout': -5}, 'T=sps,c=.5,Vout=-5')]:
                 cases.append(('accept', sps, word, 'gaussian', kw, label, 'ok'))
+    # one wrong argument TOGETHER with one other (valid) deviation: the rejection must not depend on the companion
+    sps, word = 8, '010'
+    comp = {'Vout': [{'bias': 2.0}, {'bias': None}, {'BW': 2e9}], 'bias': [{'Vout': -3.0}, {'Vout': None}, {'BW': 2e9}],
+            'T': [{'m': 2}, {'c': 0.5}, {'Vout': 5}], 'm': [{'T': sps}, {'c': 0.5}], 'c': [{'T': sps}, {'m': 2}]}
+    for shape in ['nrz', 'rz', 'gaussian']:
+        for label, val, exp in _amp_values():
+            if exp in ('ValueError', 'TypeError', 'reject'):
+                for what in ('Vout', 'bias'):
+                    for co in comp[what]:
+                        cases.append((what, sps, word, shape, {what: val, **co}, f'{label} with {co}', exp))
+    for what, vals in _gauss_values(sps).items():
+        for label, val, exp in vals:
+            if exp in ('ValueError', 'TypeError', 'reject'):
+                for co in comp[what]:
+                    cases.append((what, sps, word, 'gaussian', {what: val, **co}, f'{label} with {co}', exp))
+    for name in SHAPES_UNKNOWN:
+        for co in [{'Vout': 5}, {'T': sps}, {'bias': None}]:
+            cases.append(('shape', sps, word, name, co, f'{name!r} with {co}', 'ValueError'))
     return cases
 
 
 def valid_case(case):
     from opticomlib.devices import DAC
-    what, sps, word, shape, kw, label, exp = case
+    what, sps, word, shape_s, kw_s, label, exp = case
     gv_reset(sps=sps, R=1e9)
-    kw = {k: (np.array([1.0, 2.0]) if isinstance(v, str) and v == 'ARRAY' else v) for k, v in kw.items()}
+    shape = mk(shape_s)
+    kw = {k: mk(v) for k, v in kw_s.items()}
     tag = f'DAC({word!r}, pulse_shape={shape!r}, {", ".join(f"{k}={v!r}" for k, v in kw.items())}) sps={sps}'
     viol = []
+    x = None
     try:
         x = DAC(word, pulse_shape=shape, **kw)
         got = 'ok'
@@ -421,24 +986,52 @@ def valid_case(case):
         got = type(e).__name__
         n = None
         tag += f' [{got}: {str(e)[:80]}]'
-    klass = 'range' if exp == 'ValueError' else 'type'
+    canon = exp[1] if isinstance(exp, tuple) else CANON.get(str(shape).lower() if isinstance(shape, str) else '', None)
+
+    def accepted_ok():
+        """an accepted call: length, and - rectangular shapes without the BW stage - the waveform itself"""
+        if n != len(word) * sps:
+            viol.append((f'len:{canon}:{par(sps)}', f'{tag}: {n} samples, expected {len(word) * sps}'))
+        elif canon in ('nrz', 'rz') and kw.get('BW') is None:
+            V, b = eff(kw.get('Vout', 1.0), kw.get('bias', 0.0))
+            ref = reference_rect(np.array([int(c) for c in word]), sps, V, b, canon == 'rz')
+            if not np.all(np.abs(np.asarray(x.signal) - ref) <= 4 * EPS * (abs(V) + abs(b))):
+                viol.append((f'valid:{what}:accepted-wrong-waveform', f'{tag}: accepted, but the waveform {np.asarray(x.signal).tolist()[:6]}.. '
+                                                                       f'is not bias+Vout*bits = {ref.tolist()[:6]}..'))
+
     if exp in ('ValueError', 'TypeError'):
+        klass = 'range' if exp == 'ValueError' else 'type'
         if got == 'ok':
             viol.append((f'valid:{what}:{klass}:accepted', f'{tag}: no exception, documented {exp}'))
         elif got != exp:
             viol.append((f'valid:{what}:{klass}:wrong-exception', f'{tag}: raised {got}, documented {exp}'))
+    elif exp == 'reject':
+        if got == 'ok':
+            viol.append((f'valid:{what}:type+range:accepted', f'{tag}: no exception for a value that is of the wrong type and out of range'))
     elif exp == 'boundary':
         # |value| == 48: the statement quantifies over the open interval and calls 48 neither valid nor invalid
         if got == 'TypeError':
             viol.append((f'valid:{what}:boundary:wrong-exception', f'{tag}: raised TypeError for a float/int scalar'))
-        elif got == 'ok' and n != len(word) * sps:
-            viol.append((f'len:{shape}:{par(sps)}', f'{tag}: {n} samples'))
+        elif got == 'ok':
+            accepted_ok()
+    elif exp == 'either':
+        if got == 'ValueError':
+            viol.append((f'valid:{what}:in-range:wrong-exception', f'{tag}: raised ValueError (out of range) for an in-range value'))
+        elif got == 'ok':
+            accepted_ok()
+    elif isinstance(exp, tuple):
+        if got == 'TypeError':
+            viol.append((f'valid:shape:wrong-exception', f'{tag}: raised TypeError for a string'))
+        elif got == 'ok':
+            y = DAC(word, pulse_shape=exp[1], **kw)
+            if np.asarray(y.signal).tobytes() != np.asarray(x.signal).tobytes():
+                viol.append(('valid:shape:variant-wrong-waveform', f'{tag}: accepted, but the waveform is not that of pulse_shape={exp[1]!r}'))
     else:
         if got != 'ok':
             viol.append((f'valid:{what}:rejected-valid', f'{tag}: raised {got} for an in-range, correctly typed value'))
-        elif n != len(word) * sps:
-            viol.append((f'len:{shape}:{par(sps)}', f'{tag}: {n} samples, expected {len(word) * sps}'))
-    return res(viol=viol, obs=(what, sps, word, shape, label, got, n), nontrivial=(what, shape, label, exp))
+        else:
+            accepted_ok()
+    return res(viol=viol, obs=(what, sps, word, repr(shape), label, got, n), nontrivial=(what, repr(shape_s), label, repr(exp)))
 
 
 # ------------------------------------------------------------------ driver
@@ -448,38 +1041,96 @@ def run(ctx):
     amps = AMPS_QUICK if quick else AMPS
     sps_rect = SPS_RECT if quick else sorted(SPS_RECT + SPS_RECT_THOROUGH_EXTRA)
     allwords = [w for L in range(1, maxlen + 1) for w in words(L)]
+    edge_len = 3 if quick else 5
     ctx.space('words', len(allwords))
-    ctx.space('container_forms', len(FORMS))
-    ctx.rule(f'rect: EVERY bit word of length 1..{maxlen} ({len(allwords)}) x container forms {FORMS} x sps {sps_rect} x '
-             f'(Vout,bias) {amps} x shape spellings {NRZ_NAMES + RZ_NAMES}; whole waveform compared with a slot-by-slot reference; '
-             f'SAMPLER applied at EVERY instant k in [0,sps) to the waveform with index-coded noise attached (and to the noise-free DAC '
-             f'output) and compared with explicitly indexed samples of signal and noise; sign-aware threshold at bias+Vout/2 must give '
-             f'the word for every k (NRZ) / every k < sps//2 (RZ)')
+    ctx.space('container_forms', len(FORMS + FORMS_EXT))
+    ctx.rule(f'rect: EVERY bit word of length 1..{maxlen} ({len(allwords)}) x container forms / bit dtypes {FORMS + FORMS_EXT} (numpy buffers '
+             f'write-protected, one object passed twice) x sps {sps_rect} x (Vout,bias) {amps} x shape spellings {NRZ_NAMES + RZ_NAMES} (the extended forms with nrz / rz); whole '
+             f'waveform compared with a slot-by-slot reference; SAMPLER applied at EVERY instant k in [0,sps) (k as {KTYPES}, rotating with the '
+             f'container form) to the write-protected waveform with index-coded noise attached (and to the noise-free DAC output) and compared '
+             f'with explicitly indexed samples of signal and noise; sign-aware threshold at bias+Vout/2 must give the word for every k (NRZ) / '
+             f'every k < sps//2 (RZ); the decision is fed to DAC again; DAC(bits) with every default')
+    ctx.rule(f'rect, edge lattice: EVERY word of length 1..{edge_len} x the same sps x (Vout,bias) {AMPS_EDGE} x spellings '
+             f'{NRZ_NAMES + RZ_NAMES} + numpy str names {NPSTR_NAMES}')
     ctx.assume('numpy indexing, comparison and sha256 are trusted; the reference waveform is built by slice assignment per slot')
     ctx.assume('Vout=None / bias=None mean "no scaling" / "no offset" (devices.py:311,320), i.e. Vout=1, bias=0')
     ctx.assume('tolerance of the slot values: 4*eps*(|Vout|+|bias|) (two correctly rounded operations); SAMPLER outputs are compared bit-exactly')
     # simplest first: short words, small sps, plain amplitudes, canonical names
+    names = NRZ_NAMES + RZ_NAMES
     cases = []
     for word in allwords:
         for sps in sps_rect:
-            for (Vout, bias) in amps:
-                for shape in NRZ_NAMES + RZ_NAMES:
-                    cases.append((shape, sps, Vout, bias, word, ctx.seed, 'all' if sps in SPS_RECT else 'first'))
-    cases.sort(key=lambda c: (len(c[4]), c[1], amps.index((c[2], c[3])), (NRZ_NAMES + RZ_NAMES).index(c[0]), c[4]))
-    ctx.pmap('rect', rect_case, cases, horizon=120, chunk=64)
+            for ai, (Vout, bias) in enumerate(amps):
+                for si, shape in enumerate(names):
+                    cases.append(((len(word), sps, ai, si, word), (shape, sps, Vout, bias, word, ctx.seed, 'all' if sps in SPS_RECT else 'first')))
+            if len(word) <= edge_len:
+                for ai, (Vout, bias) in enumerate(AMPS_EDGE):
+                    for si, shape in enumerate(names + (NPSTR_NAMES if ai < 2 else [])):
+                        cases.append(((len(word), sps, 100 + ai, si, word), (shape, sps, Vout, bias, word, ctx.seed, 'all' if sps in SPS_RECT else 'first')))
+    cases.sort(key=lambda c: c[0])
+    ctx.pmap('rect', rect_case, [c[1] for c in cases], horizon=120, chunk=64)
+
+    # ---- long structured words
+    if quick:
+        long_L = [7, 13, 16, 17, 97, 127, 128, 1023, 1024, 1025, 4096, 4097]
+        long_sps = [2, 3, 8, 17]
+    else:
+        long_L = [7, 8, 13, 16, 17, 31, 32, 33, 63, 64, 97, 127, 128, 129, 255, 256, 257, 1023, 1024, 1025, 2047, 2048, 4095, 4096, 4097, 8191, 8192]
+        long_sps = [2, 3, 5, 8, 16, 17, 31, 64]
+    lc = []
+    for L in long_L:
+        for sps in long_sps + ([128] if L <= (130 if quick else 1025) else []):
+            for pi, pattern in enumerate(LONG_PATTERNS):
+                fi = pi + L + sps
+                lc.append(('nrz', sps, L, pattern, 1, 0, None, None, ctx.seed, fi))
+                lc.append(('rz', sps, L, pattern, -3, -2, None, None, ctx.seed, fi + 1))
+                if sps >= 8:
+                    for T in sorted({math.ceil(sps / 2), sps, 2 * sps}):
+                        for m in ((1, 4) if quick else (1, 2, 3, 4)):
+                            lc.append(('gaussian', sps, L, pattern, 0.5, 0.25, T, m, ctx.seed, fi + 2 + m))
+    ctx.rule(f'long: structured words {LONG_PATTERNS} of length {long_L} x sps {long_sps} (+128 for the shorter words) x NRZ / RZ / Gaussian '
+             f'(T in {{ceil(sps/2), sps, 2sps}}, sps >= 8), container form rotating over {LONG_FORMS}: length, every slot (NRZ/RZ), the '
+             f'Gaussian clauses on every isolated one (first / last / middle slot, a one every 8 slots), SAMPLER at the instants '
+             f'{{0,1,sps//2-1,sps//2,sps-2,sps-1}} with noise, inverse (Gaussian: k=sps//2, T<=sps)')
+    ctx.assume('long: the slot reference is built from index arithmetic (slot, j = divmod(i, sps)); the pseudo-random word comes from an own '
+               '7-bit shift register / numpy RandomState(VERIF_SEED), not from the library')
+    ctx.pmap('long', long_case, lc, horizon=120)
 
     # ---- Gaussian, isolated one
     g_amps = [(1, 0), (-3, -2)] if quick else AMPS
     iso = []
     for (Vout, bias) in g_amps:
-        for sps in SPS_GAUSS:
-            for T in range(math.ceil(sps / 2), 2 * sps + 1):
-                for m in (1, 2, 3, 4):
-                    iso.append((sps, T, m, Vout, bias))
-    ctx.rule(f'gauss.iso: isolated one {ISO!r}, sps {SPS_GAUSS} x EVERY integer T in [ceil(sps/2), 2*sps] x m in 1..4 x (Vout,bias) {g_amps}: '
+        for word in (ISO_WORDS if (Vout, bias) == (1, 0) else [ISO]):
+            for sps in SPS_GAUSS:
+                for T in range(math.ceil(sps / 2), 2 * sps + 1):
+                    for m in (1, 2, 3, 4):
+                        iso.append((sps, T, m, Vout, bias, word, ()))
+    n_lattice = len(iso)
+    # every sps of the quantifier at the limits of T and m, and with T / m omitted (documented defaults sps / 1)
+    for sps in range(8, 129):
+        for word in (ISO, '010'):
+            for T in sorted({math.ceil(sps / 2), sps, 2 * sps}):
+                for m in (1, 4):
+                    iso.append((sps, T, m, 1, 0, word, ()))
+            iso.append((sps, None, None, 1, 0, word, ()))
+    # edge amplitudes, explicit c = 0 in every spelling, other spellings / containers / BW=None, defaults of T and m
+    opt_axis = [(), (('c', 0),), (('c', 0.0),), (('c', -0.0),), (('c', ('@np', 'float64', 0.0)),), (('pulse_shape', ('@npstr', 'gaussian')),),
+                (('BW', None),), (('form', 'ndarray_uint8'),), (('form', 'binary_sequence'),), (('form', 'list_bool'),), (('c', 0.0), ('BW', None))]
+    for sps in SPS_GAUSS:
+        for T in sorted({math.ceil(sps / 2), sps, 2 * sps}) + [None]:
+            for m in (1, 2, 3, 4):
+                for (Vout, bias) in AMPS_EDGE:
+                    iso.append((sps, T, m, Vout, bias, ISO, ()))
+            for m in (1, 4, None):
+                for opts in opt_axis:
+                    iso.append((sps, T, m, 1, 0, '00100', opts))
+    ctx.rule(f'gauss.iso: sps {SPS_GAUSS} x EVERY integer T in [ceil(sps/2), 2*sps] x m in 1..4 x (Vout,bias) {g_amps} on the isolated one {ISO!r}, '
+             f'and for (1,0) on {len(ISO_WORDS)} words with isolated ones (single slot, first / last slot, inner slots, two ones, 97 / 127 slots) '
+             f'({n_lattice} cases); EVERY sps in 8..128 at T in {{ceil(sps/2), sps, 2sps}} x m in {{1,4}} and with T, m omitted; edge amplitudes '
+             f'{AMPS_EDGE}; explicit c=0 spellings, numpy str name, BW=None, container forms, omitted T / m: '
              f'peak position = midpoint of the samples within 1e-9*Vout of the maximum, must lie within 1.0 sample of the slot centre '
-             f'3*sps+(sps-1)/2; |peak-bias-Vout| <= 0.05*|Vout|; half-maximum width (linear interpolation, half of the measured peak '
-             f'above bias) within 1.0 sample of T')
+             f'slot*sps+(sps-1)/2; |peak-bias-Vout| <= 0.05*|Vout|; half-maximum width (linear interpolation, half of the measured peak '
+             f'above bias) within 1.0 sample of T (default T: sps); the width is claimed where both half-maximum points lie inside the record')
     ctx.assume('slot centre = mean index of the sps samples of the slot, (sps-1)/2 (the centroid of the NRZ pulse of the same slot; the '
                'palindromic word 0001000 is mirror-symmetric about exactly this point); the 1e-9 plateau rule only removes the '
                'FFT-rounding ambiguity of flat-topped super-Gaussians')
@@ -501,8 +1152,15 @@ def run(ctx):
                 for T in range(math.ceil(sps / 2), sps + 1):
                     for m in (1, 2, 3, 4):
                         inv.append((sps, T, m, Vout, bias, L))
+    for L in range(1, edge_len + 1):
+        for (Vout, bias) in AMPS_EDGE:
+            for sps in SPS_GAUSS:
+                for T in sorted({math.ceil(sps / 2), sps}):
+                    for m in (1, 4):
+                        inv.append((sps, T, m, Vout, bias, L))
     ctx.rule(f'gauss.inv: EVERY word of length 1..{maxlen} (container form rotating with the word index) x sps {SPS_GAUSS} x EVERY integer T in '
-             f'[ceil(sps/2), sps] x m in 1..4 x (Vout,bias) {i_amps}: SAMPLER at k=sps//2 equals the indexed samples and the sign-aware '
+             f'[ceil(sps/2), sps] x m in 1..4 x (Vout,bias) {i_amps}, and length 1..{edge_len} x T in {{ceil(sps/2), sps}} x m in {{1,4}} x the edge '
+             f'amplitudes: SAMPLER at k=sps//2 equals the indexed samples and the sign-aware '
              f'threshold decision equals the word (T > sps excluded: two neighbouring ones legitimately lift a zero above Vout/2)')
     mg = ctx.pmap('gauss.inv', gauss_inv_case, inv, horizon=120)
     mg = [x for x in mg if x is not None]
@@ -512,20 +1170,44 @@ def run(ctx):
 
     # ---- SAMPLER on generic records
     sc = []
-    for sps in ([2, 3, 4, 5, 8, 16, 17] if quick else [2, 3, 4, 5, 7, 8, 9, 16, 17, 31, 32, 64, 127, 128]):
-        for n in sorted({1, 2, sps - 1, sps, sps + 1, 2 * sps, 2 * sps + 1, 3 * sps - 1, 8 * sps, 8 * sps + sps // 2}):
+    for sps in ([2, 3, 4, 5, 8, 16, 17, 128] if quick else [2, 3, 4, 5, 7, 8, 9, 16, 17, 31, 32, 64, 127, 128]):
+        for n in sorted({1, 2, 3, sps - 1, sps, sps + 1, 2 * sps, 2 * sps + 1, 3 * sps - 1, 8 * sps, 8 * sps + sps // 2,
+                         13, 97, 127, 1023, 1024, 1025, 4096, 4097}):
             if n < 1:
                 continue
-            for kind in ['real', 'complex', 'nonoise', 'zero-sum-noise', 'seeded']:
+            for kind in SAMPLER_KINDS:
                 sc.append((sps, n, kind, ctx.seed))
-    ctx.rule('sampler: records of n samples (n below, at, above and not a multiple of sps), real / complex / noise-free / zero-sum-noise / '
-             'seeded content, EVERY instant k in [0,sps) with k < n: signal and noise equal the explicitly indexed samples k,k+sps,...')
+    ctx.rule(f'sampler: write-protected records of n samples (1, 2, 3, below / at / above / not a multiple of sps, 13, 97, 127, 1023..1025, 4096, 4097) '
+             f'x content {SAMPLER_KINDS} (every sample dtype with noise of the same dtype, mixed dtypes, all-zero / zero-sum / no noise, scales '
+             f'1e-12..1e6, big offset), EVERY instant k in [0,sps) with k < n (k as {KTYPES}): signal and noise equal the explicitly indexed '
+             f'samples k,k+sps,...; the records sampled at k=0 and k=sps-1 are sampled again (j=0, sps-1)')
     ctx.pmap('sampler', sampler_case, sc, horizon=60)
+
+    # ---- the grid reached through other call forms, and reconfigured between calls
+    gc = [(s, form, ctx.seed) for form in GRID_FORMS for s in range(2, 129)]
+    ctx.rule(f'grid: EVERY sps in 2..128 x gv call forms {GRID_FORMS} (from a clean grid): words 1 / 0110 in NRZ (every default) and RZ '
+             f'(Vout,bias = (-3,-2), (0.5,0.25), (1,0)) against the slot reference, SAMPLER with noise at the instants {{0,1,sps//2-1,sps//2,sps-2,sps-1}}, '
+             f'inverse; sps >= 8: the Gaussian pulse with every default on 00100 (position, peak, width = sps, inverse at sps//2). The sps the '
+             f'grid reports after the call is the one the clauses are checked against (how gv rounds fs/R is property C14)')
+    ctx.pmap('grid', grid_case, gc, horizon=60)
+    rs_sps = [2, 3, 8, 16, 17, 128]
+    rs_forms = ['sps', 'sps,fs=64G', 'R,fs integer ratio', 'R,fs ratio+0.3', 'fs alone', 'N=64']
+    rc = [(a, fa, b, fb, ctx.seed) for a in rs_sps for b in rs_sps if a != b for fa in rs_forms[:3] for fb in rs_forms]
+    ctx.rule(f'reconf: grid a -> DAC -> grid b (no clean) -> every clause of the thin slice on b, the waveform made on a sampled on b, '
+             f'T=2b accepted / T=2b+1 rejected -> grid a -> thin slice again; a != b in {rs_sps}, first form in {rs_forms[:3]}, second in {rs_forms}')
+    ctx.pmap('reconf', reconf_case, rc, horizon=60)
 
     # ---- validation
     vc = valid_cases()
-    ctx.rule('valid: each wrong value alone (Vout, bias in every shape; T, m, c in the Gaussian shape; unknown shape names) on sps {2,8,17} x '
-             'words {1,010,000}: documented exception type; |value|==48 may be rejected (ValueError) or accepted; in-range boundary values '
-             'must be accepted and give len*sps samples')
-    ctx.assume('numpy scalar types, bool, None and integer-valued floats for T/m are outside the alphabet (the statement is silent on them)')
+    ctx.rule('valid: each wrong value alone and together with one valid deviation of another argument (Vout, bias in every shape; T, m, c in the '
+             'Gaussian shape; pulse-shape names: unknown words, substrings / prefixes / extensions / lists of documented names, non-strings) on '
+             'sps {2,3,8,17,128} x words {1,010,000}: documented exception type; |value|==48 may be rejected (ValueError) or accepted; in-range '
+             'values just inside the limits, numpy float64 scalars and numpy str names must be accepted and give the reference waveform; values '
+             'that are wrong in type AND range: any documented exception')
+    ctx.assume('in-range numpy scalars other than float64, 0-d arrays, bool, Fraction and integer-valued float T / m: the statement is silent on '
+               'whether they count as "wrongly typed": TypeError or a CORRECT waveform are both accepted (never ValueError, never a wrong waveform); '
+               'spellings that differ from a documented name in case / surrounding white space only: ValueError or exactly the waveform of the '
+               'documented name; nan is outside the alphabet')
     ctx.pmap('valid', valid_case, vc, horizon=30)
+    if os.environ.get('C05_TIMES'):            # wall seconds per part (diagnostic only, not part of the evidence)
+        print('[C05] part walls', ctx.part_wall, flush=True)
